@@ -94,6 +94,9 @@ class Ctx:
 
     # ------------------------------------------------------------------ finish
     def finish(self):
+        for m in facts.BROKEN_NOTES:
+            if m not in self.broken:
+                self.broken.append(m)
         known = []
         if os.path.exists(KNOWN):
             known = json.load(open(KNOWN)).get("findings", [])
